@@ -261,7 +261,8 @@ def moist_lapse_rate(p, T, e_eq=None):
     lapse = (
         gamma_d * (
             (1 + (Lv * w_saturated) / (Rd * T)) /
-            (1 + (Lv**2 * w_saturated) / (Cp * Rv * T**2))
+            # T**2 in the dtype of T overflows for int16 temperatures
+            (1 + (Lv**2 * w_saturated) / ((Cp * Rv * T) * T))
         )
     )
 
